@@ -519,6 +519,10 @@ class _Reader:
         if adtype != 3 and not cover_ok:
             self.f.add('fe-extent-cover', '%s @%d: extents %r cover %d blocks, information length %d needs %d'
                        % (what, sec, [n for _, n in ent['extents']][:8], nblk, info_len, _blocks(info_len)))
+        if adtype != 3 and blocks_rec != nblk:
+            # ECMA-167 4/14.9.11: the number of logical blocks recorded as specified by the allocation descriptors
+            self.f.add('fe-blocks-recorded', '%s @%d: Logical Blocks Recorded %d, the allocation descriptors record %d blocks'
+                       % (what, sec, blocks_rec, nblk))
         if ent['type'] != 'dir' and link < 1:
             self.f.add('dir-link-count', '%s @%d: file link count %d' % (what, sec, link))
         if ent['type'] == 'symlink':
